@@ -225,7 +225,7 @@ pub fn tape_checks(ctx: &Ctx) -> Vec<(&'static str, Box<CheckFn<'_>>)> {
 		(
 			"values",
 			Box::new(move |g: &mut Gen, stats: &mut Stats| {
-				let e = *g.pick(&entries);
+				let e = pick_entry(g, &entries);
 				// wide-but-shallow and deep-but-narrow
 				let deep = g.bool();
 				let mut cfg = GenCfg {
@@ -249,7 +249,7 @@ pub fn tape_checks(ctx: &Ctx) -> Vec<(&'static str, Box<CheckFn<'_>>)> {
 		(
 			"bytes",
 			Box::new(move |g: &mut Gen, stats: &mut Stats| {
-				let e = *g.pick(&entries2);
+				let e = pick_entry(g, &entries2);
 				let (mut bytes, family) = gen_input(&e.ty, g, 128);
 				if e.is_recursive() && bytes.len() > 256 {
 					bytes.truncate(256);
